@@ -539,6 +539,15 @@ func (db *DB) ResetLocalState(ctx context.Context) error {
 
 	db.invalidatePosCache()
 
+	// When reset at run time (auto-recovery), re-establish the baseline from
+	// the replica just as init() does. Otherwise local TXIDs restart at 1 below
+	// the replica's position and replica syncs succeed without uploading.
+	if db.IsOpen() && db.db != nil && db.Replica != nil && db.Replica.Client != nil {
+		if err := db.checkDatabaseBehindReplica(ctx); err != nil {
+			return fmt.Errorf("check database behind replica: %w", err)
+		}
+	}
+
 	db.Logger.Info("local state reset complete, next sync will create fresh snapshot")
 	return nil
 }
